@@ -3,6 +3,9 @@ import TakVerif.Proofs.SymOutcome
 import TakVerif.Proofs.SymTransform
 import TakVerif.Proofs.SymDedup
 import TakVerif.Proofs.Outcome
+import TakVerif.Proofs.MoveRefine
+import TakVerif.Proofs.ImageFact
+import TakVerif.Proofs.RoadInv
 
 /-!
 # C14 — the eight board symmetries commute with the rules
@@ -68,22 +71,25 @@ theorem roadPath_invariant (k : Sym) (s : State) (hs : s.WF) (c : Color) :
 
 /-- the bit-level `WinDetails()` of two well-formed positions, one of which shows (through `At`, reserves, ply)
 the `k`-image of the other, agree — `outcome_invariant` carried to the model through C02's `winDetails_refines` -/
-theorem winDetails_invariant (k : Sym) (p q : Pos) (wfp : Roads.WFBoard p) (wfq : Roads.WFBoard q)
-    (hrp : Roads.ReservesOK p) (hrq : Roads.ReservesOK q) (himg : Spec.abs q = k.state (Spec.abs p)) :
+theorem winDetails_invariant (k : Sym) (p q : Pos) (wfp : Roads.RoadWF p) (wfq : Roads.RoadWF q)
+    (himg : Spec.abs q = k.state (Spec.abs p)) :
     Roads.toOutcome q.winDetails = Roads.toOutcome p.winDetails := by
-  rw [Roads.winDetails_refines p wfp hrp, Roads.winDetails_refines q wfq hrq, himg]
+  rw [Roads.winDetails_refines p wfp, Roads.winDetails_refines q wfq, himg]
   exact Sym.outcome_invariant k (by simp [State.WF, Spec.abs])
 
-/-- the bit-level `Move` under a refinement hypothesis in the form C01 proves it (`Refines`): a move is
-accepted on the image position iff the original move is accepted on the original, and the results again show
-image and original.  Stated for arbitrary raw moves `m`, `m'` that decode to a move and its image. -/
-def Refines (basis : Array W) (p : Pos) : Prop :=
-  ∀ m : Tak.Move, match p.apply basis m with
-    | .ok q => Spec.step (Spec.abs p) (Spec.decode m) = some (Spec.abs q)
-    | .error _ => Spec.step (Spec.abs p) (Spec.decode m) = none
+/-- what `C01.move_refines` concludes for one position and one raw move (it does so for every well-formed
+position and every move other than the internal pass whose result respects the 64-piece limit) -/
+def RefinesAt (basis : Array W) (p : Pos) (m : Tak.Move) : Prop :=
+  match p.apply basis m with
+  | .ok q => Spec.step (Spec.abs p) (Spec.decode m) = some (Spec.abs q)
+  | .error _ => Spec.step (Spec.abs p) (Spec.decode m) = none
 
+/-- the bit-level `Move` commutes with the maps wherever it refines the rule book: a move is accepted on
+the image position iff the original move is accepted on the original, and the results again show image and
+original.  Stated for arbitrary raw moves `m`, `m'` that decode to a move and its image (`transformMove_spec`
+provides `m'`). -/
 theorem apply_equivariant (basis : Array W) (k : Sym) (p q : Pos) (m m' : Tak.Move)
-    (rp : Refines basis p) (rq : Refines basis q)
+    (rp : RefinesAt basis p m) (rq : RefinesAt basis q m')
     (himg : Spec.abs q = k.state (Spec.abs p))
     (hm : Spec.decode m' = k.move p.cfg.size (Spec.decode m)) :
     match p.apply basis m, q.apply basis m' with
@@ -93,13 +99,24 @@ theorem apply_equivariant (basis : Array W) (k : Sym) (p q : Pos) (m m' : Tak.Mo
   have hs : (Spec.abs p).WF := by simp [State.WF, Spec.abs]
   have e : Spec.step (k.state (Spec.abs p)) (k.move p.cfg.size (Spec.decode m)) =
       (Spec.step (Spec.abs p) (Spec.decode m)).map k.state := step_equivariant k (Spec.abs p) hs (Spec.decode m)
-  have e1 := rp m
-  have e2 := rq m'
+  have e1 := rp
+  have e2 := rq
+  unfold RefinesAt at e1 e2
   rw [himg, hm] at e2
   cases h1 : p.apply basis m <;> cases h2 : q.apply basis m' <;> simp only [h1, h2] at e1 e2 ⊢
   · rw [e1] at e; rw [e] at e2; simp at e2
   · rw [e1] at e; rw [e] at e2; simp at e2
   · rw [e1] at e; rw [e] at e2; simp at e2; exact e2.symm
+
+/-- the hypothesis `RefinesAt` is what C01 proves: for every well-formed position and every raw move that is
+not the internal pass and whose result respects the 64-piece limit -/
+theorem refinesAt_of_wf (basis : Array W) (p : Pos) (m : Tak.Move) (hwf : Tak.WF basis p)
+    (hp : m.type ≠ Facts.mtPass) (hlim : Tak.StackLimit p m) : RefinesAt basis p m := by
+  have h := Tak.move_refines_core (basis := basis) (p := p) (fun q => Roads.analyze_ne_none q) hwf m hp hlim
+  unfold RefinesAt
+  cases ha : p.apply basis m with
+  | error e => rw [ha] at h; exact h
+  | ok q => rw [ha] at h; exact h.1
 
 /-! ## 3. `TransformMove` -/
 
@@ -145,7 +162,7 @@ theorem symmetries_spec (basis : Array W) (p : Pos) (rs : List (Pos × Fin 8))
     rw [hps] at h
     have hrs : rs = dedupByHash ps [] [] := by cases h; rfl
     -- what `mapM` returned
-    obtain ⟨m1, m2⟩ := mapM_ok _ _ _ hps
+    obtain ⟨m1, m2⟩ := mapM_ok_mem _ _ _ hps
     have unpack : ∀ (k : Fin 8) (e : Pos × Fin 8),
         (do let q ← imagePos basis p k; pure (q, k) : R (Pos × Fin 8)) = .ok e →
         imagePos basis p k = .ok e.1 ∧ e.2 = k := by
@@ -187,7 +204,73 @@ theorem symmetries_spec (basis : Array W) (p : Pos) (rs : List (Pos × Fin 8))
       have := hnc e hmem_e a ha hee
       exact List.mem_map.2 ⟨e, he, by rw [this, haq]⟩
 
+/-- **…and each listed position shows the list-level image under its transform**, for every position of a
+default game (`InvD`: C01's `WF`, piece budget ≤ 64, the configuration `New` stores, conservation of pieces —
+an invariant of all positions reachable by `Move` from `New` on sizes up to 6×6, `Tak.posFacts2_defaultD`).
+Together with `symmetries_spec` this is the last sentence of the property: each distinct image exactly once,
+paired with the transform that produces it. -/
+theorem symmetries_show_images (basis : Array W) (p : Pos) (hp : InvD basis p) (rs : List (Pos × Fin 8))
+    (h : symmetries basis p = .ok rs) :
+    ∀ e ∈ rs, Spec.abs e.1 = Sym.state e.2 (Spec.abs p) := by
+  intro e he
+  exact imageFact_invD basis p e.2 e.1 hp ((symmetries_mem basis p rs h).1 e he)
+
+/-- **The bit-level `Move` commutes with the symmetries** — the first sentence of the property for the model,
+with no refinement hypothesis left: for every position `p` of a default game (`InvD`, see above), each of the
+eight maps `k`, the image position `q` rebuilt by `Symmetries`' construction, and every raw move `m` other than
+the internal pass with coordinates in `[-100, 100]` (legal or not, any drop word): `TransformMove` yields `sm`,
+and either both `Move p m` and `Move q sm` are rejected, or both are accepted and the result on the image shows
+the image of the result. -/
+theorem move_equivariant_default (basis : Array W) (p q : Pos) (k : Fin 8) (hp : InvD basis p)
+    (hq : imagePos basis p k = .ok q) (m : Tak.Move) (hnp : m.type ≠ Facts.mtPass)
+    (hx : -100 ≤ m.x ∧ m.x ≤ 100) (hy : -100 ≤ m.y ∧ m.y ≤ 100) :
+    ∃ sm, transformMove p.cfg.size [k] m = .ok sm ∧
+      (match p.apply basis m, q.apply basis sm with
+       | .ok p', .ok q' => Spec.abs q' = Sym.state k (Spec.abs p')
+       | .error _, .error _ => True
+       | _, _ => False) := by
+  obtain ⟨sm, h1, h2, -⟩ := Tak.transformMove_spec hp.1.size_le [k] m hx hy
+  have hprod : Symm.prod [k] = k := by simp [Symm.prod, Sym.mul_one]
+  rw [hprod] at h2
+  refine ⟨sm, h1, ?_⟩
+  obtain ⟨wq, bq⟩ := image_wf basis p q k hp hq
+  have hsmnp : sm.type ≠ Facts.mtPass := by
+    have := Tak.transformMove_raw hp.1.size_le [k] m hx hy
+    rw [h1, hprod] at this
+    cases this
+    unfold Sym.raw
+    cases hd : dirOf m.type with
+    | none => exact hnp
+    | some d =>
+      show dirCode (Sym.dir k d) ≠ Facts.mtPass
+      generalize Sym.dir k d = d'
+      cases d' <;> decide
+  exact apply_equivariant basis k p q m sm
+    (refinesAt_of_wf basis p m hp.1 hnp (stackLimit_of_budget m hp.2.1))
+    (refinesAt_of_wf basis q sm wq hsmnp (stackLimit_of_budget sm bq))
+    (imageFact_invD basis p k q hp hq) h2
+
+/-- **…and `WinDetails()` of the rebuilt image equals that of the position** (over / winner / reason / both flat
+counts), for every analysed position of a default game: the image satisfies C02's invariant because it comes
+out of `FromSquares` (`Roads.fromSquares_roadWF`) and shows the list-level image (`imageFact_invD`). -/
+theorem winDetails_invariant_default (basis : Array W) (p q : Pos) (k : Fin 8) (hp : InvD basis p)
+    (hr : Roads.RoadWF p) (hq : imagePos basis p k = .ok q) :
+    Roads.toOutcome q.winDetails = Roads.toOutcome p.winDetails := by
+  have hrq : Roads.RoadWF q := by
+    unfold imagePos at hq
+    cases hb : imageBoard p k with
+    | error e => simp [hb, bind, Except.bind] at hq
+    | ok b =>
+      simp only [hb, bind, Except.bind] at hq
+      exact Roads.fromSquares_roadWF basis _ _ _ q hq
+  exact winDetails_invariant k p q hr hrq (imageFact_invD basis p k q hp hq)
+
 /-! ## 5. the hypotheses are satisfiable; concrete instances -/
+
+/-- `InvD` is satisfiable: it holds at the start of every default game up to 6×6 (and `posFacts2_defaultD.apply`
+carries it along every accepted non-pass move) -/
+example (basis : Array W) : ∃ p, Pos.new ⟨5, 0, 0, false⟩ = .ok p ∧ InvD basis p :=
+  ⟨_, rfl, (posFacts2_defaultD basis 5 (by decide)).new _ rfl⟩
 
 /-- a 3×3 state with a white wall on a1, a black flat on b1, a two-high stack on c2 -/
 def exState : State :=
